@@ -44,6 +44,8 @@ ENUM_CFGS = [
     C.simple("js-default"),
     C.simple("zero", enable=["blockquote", "table", "list"]),
     C.simple("js-default", html=True, typographer=True),
+    # the zero preset with every optional rule switched on by the caller (options come from the preset, rules from the caller)
+    C.simple("zero", enable=list(C.ALL_OPT), typographer=True, html=True),
 ]
 
 
@@ -62,6 +64,9 @@ def _case(draw):
         if d.chance(0.3) and b:
             i = d.i(0, len(b))
             b = b[:i] + bytes([d.i(128, 255)]) + b[i:]
+        if d.chance(0.3):
+            # byte order marks and other encoding signatures in front of arbitrary (also malformed) bytes
+            b = d.pick([b"\xef\xbb\xbf", b"\xff\xfe", b"\xfe\xff", b"\xff\xfe\x00\x00", b"\x00\x00\xfe\xff", b"+/v8", b"\xf7\x64\x4c", b"\x0e\xfe\xff", b"\xfb\xee\x28", b"\x84\x31\x95\x33"]) + b
         return {"kind": "cli", "hex": b.hex()}
     src = gen.any_doc_d(d)
     cfg = gen.config_d(d)
